@@ -19,6 +19,8 @@ pub enum Op {
     SetNested(i64),
     /// set_nested with a one-segment path: writes the top-level key
     SetNestedTop(&'static str, i64),
+    /// the key holds a top-level null (present, not absent)
+    SetNull(&'static str),
     /// the key `d` becomes an object that contains an object: {inner: {g: 1}}
     SetDeepObj,
     /// set_nested with a three-segment path: d.inner.g
@@ -54,7 +56,7 @@ pub fn alphabet(level: usize) -> Vec<Op> {
     match level {
         0 => vec![Begin, Commit, Rollback, Set("k1", 1), Set("k1", 2), Remove("k1")],
         1 => vec![Begin, Commit, Rollback, Set("k1", 1), Set("k1", 2), Set("k2", 1), SetObj, SetNested(2), Remove("k1"), Remove("o")],
-        3 => vec![Begin, Commit, Rollback, Set("k1", 1), SetNestedTop("k1", 2), SetNestedTop("k2", 1), Remove("k1")],
+        3 => vec![Begin, Commit, Rollback, Set("k1", 1), SetNestedTop("k1", 2), SetNestedTop("k2", 1), Remove("k1"), SetNull("k1")],
         4 => vec![Begin, Commit, Rollback, SetDeepObj, SetNestedDeep(2), SetNestedDeep(3), Remove("d"), Set("d", 1)],
         _ => vec![Begin, Commit, Rollback, Set("k1", 1), Set("k1", 2), Set("k2", 1), SetObj, SetNested(1), SetNested(2), SetNestedTop("k1", 3), Remove("k1"), Remove("k2"), Remove("o")],
     }
@@ -127,6 +129,10 @@ impl System for Sys {
                 }
                 self.model.insert(k.to_string(), Value::Integer(*v));
             }
+            Op::SetNull(k) => {
+                self.f.set(k, Value::Null);
+                self.model.insert(k.to_string(), Value::Null);
+            }
             Op::SetDeepObj => {
                 let v = deep_obj(1);
                 self.f.set("d", v.clone());
@@ -169,7 +175,7 @@ impl System for Sys {
             Op::Begin => "begin",
             Op::Commit => "commit",
             Op::Rollback => "rollback",
-            Op::Set(..) => "set",
+            Op::Set(..) | Op::SetNull(_) => "set",
             Op::SetObj => "set_object",
             Op::SetNested(_) | Op::SetNestedTop(..) | Op::SetNestedDeep(_) => "set_nested",
             Op::SetDeepObj => "set_object",
@@ -184,7 +190,7 @@ impl System for Sys {
 
 pub fn run_frames(opts: &Opts) -> Vec<Report> {
     let plan: Vec<(&str, usize, usize)> = match opts.tier {
-        Tier::Quick => vec![("undo_full_len6", 2, 6), ("undo_mid_len7", 1, 7), ("undo_small_len9", 0, 9), ("undo_top_level_set_nested_len8", 3, 8), ("undo_three_segment_set_nested_len7", 4, 7)],
+        Tier::Quick => vec![("undo_full_len6", 2, 6), ("undo_mid_len7", 1, 7), ("undo_small_len9", 0, 9), ("undo_top_level_set_nested_len7", 3, 7), ("undo_three_segment_set_nested_len7", 4, 7)],
         Tier::Thorough => vec![("undo_full_len7", 2, 7), ("undo_mid_len8", 1, 8), ("undo_small_len10", 0, 10), ("undo_top_level_set_nested_len10", 3, 10), ("undo_three_segment_set_nested_len9", 4, 9)],
     };
     let mut out = vec![];
